@@ -639,6 +639,35 @@ def oracle(case):
                 if n != 1:
                     errs.append(("C03:companion:unsolicited-not-once",
                                  "event T%d reached the listener %d times" % (m["tag"], n)))
+    # MRP: a message under a key whose requests have all ENDED (timed out - or returned - strictly before it
+    # arrived) answers no outstanding request any more: it must reach the subscribed listeners exactly once.
+    # (requests abandoned by cancellation are left out: see the report - the unchanged code keeps their entry)
+    if t == "mrp":
+        for m in case.msgs:
+            mm = m["m"]
+            if mm.get("for") is not None:
+                key = case.key_of_req(mm["for"]) or ("w", mm["for"])
+            else:
+                key = case.key_of_msg(mm)
+            if key is None:
+                continue
+            group = [w for w in case.req_at if case.req_at[w] < m["at"]
+                     and (case.key_of_req(w) or ("w", w)) == key]
+            if not group:
+                continue
+            if any(case.done_at.get(w, 10 ** 9) >= m["at"] for w in group):
+                continue            # somebody is (or may just have been) waiting under that key
+            if any(case.how.get(w) == "cancel" or not (case.outcome[w][0] == "ret" or case.outcome[w][1] == "TimeoutError")
+                   for w in group):
+                continue
+            ty = case.obs["types"][mm.get("type", 0)]
+            for who in (case.obs["listeners"] or {}).get(ty, []):
+                n = sum(1 for (x, y, g) in case.listens if x == who and g == m["tag"])
+                if n != 1:
+                    ended = sorted((w, case.how.get(w)) for w in group)
+                    errs.append(("C03:mrp:late-answer-not-dispatched",
+                                 "message T%d arrived after the request(s) under its identifier had ended %s; "
+                                 "listener %s of type %d saw it %d times" % (m["tag"], ended, who, ty, n)))
     # a request whose answer never arrived before its timer fired gets a timeout error
     for w in case.req_at:
         if case.how.get(w) == "timeout":
@@ -896,14 +925,14 @@ def build(t, base, timeout_w=None, timeout_pos=None, unsol_pos=None, variant=0, 
                 opts["timeout"] = 3 if i == timeout_w else 50 + i
             if t == "mrp" and variant % 4 == 3 and i == 0:
                 opts["typed"] = True
-                opts["type"] = 2
+                opts["type"] = 1 if variant % 8 == 7 else 2
             script.append(["req", i, opts])
         elif kind == "a":
             m = {"tag": 10 + i, "for": i}
             if t == "companion":
                 m["kind"] = "resp"
             if t == "mrp":
-                m["type"] = 2 if (variant % 4 == 3 and i == 0) else (i % 2)
+                m["type"] = (1 if variant % 8 == 7 else 2) if (variant % 4 == 3 and i == 0) else (i % 2)
             script.append(["msg", [m]])
     return script
 
@@ -995,7 +1024,7 @@ def random_script(t, rng, nmax):
                 opts["allow"] = True
             if t == "mrp" and rng.random() < 0.25:
                 opts["typed"] = True
-                opts["type"] = 2
+                opts["type"] = rng.choice((1, 2))
             if t == "companion" and rng.random() < 0.2:
                 opts = {"auth": rng.choice((3, 4, 5, 6)), "timeout": opts.get("timeout", 60)}
             script.append(["req", nreq, opts])
